@@ -43,6 +43,39 @@ CHECKS.update({
         technique="deterministic simulation: virtual time + fault injection (kill, lost file, stale locks), bounded-liveness oracle", ref="8/C18"),
 })
 
+HIST_NOTE = "Histories run through pydra's public API in one process (process-global pydra state reset between cases); 'cf' submissions run on the simloop engine; sequential submissions run under a virtual clock (a sleep-forever becomes a hang verdict). Sampling of histories, not enumeration."
+CHECKS.update({
+    "C06": dict(engine="histsim", category="exploration",
+        text="Finite pool of variant pairs differing in exactly one semantically relevant aspect (function body edited on disk, closure value; shell executable/argstr/position/sep/formatter; input content/type/nesting; numpy shape/dtype/content) x seeded histories of 2-8 submissions of both members and unrelated tasks into one cache root (orders, repeats, reruns, both workers); oracle: every returned output equals executing now (function called / argv run directly) and the pair's cache identities differ.",
+        note=HIST_NOTE + " The pair pool is finite and listed in the evidence; aspects outside it are not covered.",
+        technique="deterministic simulation: seeded submission histories against an executable value model", ref="8/C06"),
+    "C09": dict(engine="histsim", category="exploration",
+        text="Seeded histories of file operations (write same/different size, advance clock by less/more than the resolution, restore mtime, rename over, copy preserving timestamps) interleaved with hash computations and task submissions, for files and a directory, under a simulated file-system clock with per-run timestamp resolution 1 ns .. 2 s; oracle: every hash equals the hash computed with an empty persistent cache, a submission returns the current content.",
+        note="Kernel timestamps of tracked inodes and time.time/datetime.now are replaced by the simulated clock; POSIX timestamp semantics assumed (mtime settable, ctime not).",
+        technique="deterministic simulation: simulated file-system clock, seeded operation histories vs cache-free reference hash", ref="8/C09"),
+    "C11": dict(engine="histsim", category="exploration",
+        text="Seeded histories of 3-8 submissions over two cache roots and three read-only locations with random rerun/propagate_rerun flags and read-only lists, tasks and workflows sharing inner identities, both workers, plus residues left by really SIGKILLing a process that executes a job at a seeded point; reference model: per location the identities with a complete successful result; oracle: executions per identity, outputs, and byte-identical trees of every location that is not the cache root.",
+        note=HIST_NOTE, technique="deterministic simulation: seeded histories + crash residues vs executable store model", ref="8/C11"),
+    "C13": dict(engine="histsim", category="exploration",
+        text="Seeded histories over identities that fail in different ways (python raise always / first attempt only, shell non-zero exit always / first attempt only, dict return lacking a declared output, workflow with a failing node) and succeeding variants, both workers; oracle vs store model: failing executions raise and carry the recorded failure, are never stored, the next submission executes again and a now-succeeding body returns the value model's outputs, never NOTHING.",
+        note=HIST_NOTE, technique="deterministic simulation: seeded histories with injected body failures vs executable store model", ref="8/C13"),
+    "C28": dict(engine="simloop+cluster", category="exploration",
+        text="The real SlurmWorker/SgeWorker run on the virtual-time loop against a fake scheduler reached through asyncio.create_subprocess_exec: seeded user argument strings and per-job response scripts (pending, running, completed, failed, cancelled/timeout/preempted/node-fail/evicted with the real payload process SIGKILLed at a seeded point, further lives after requeue, lagging accounting); oracle: complete iff the scheduler says completed and the result loads, failed when it says failed, requeued/resubmitted (not failed) after a kill, user job-name/output/error honoured exactly once.",
+        note="The fake CLIs encode my reading of the sbatch/squeue/sacct/scontrol/qsub/qstat/qacct formats as parsed by the workers' regexes (stub). The payload extracted from the generated batch script runs the real load_and_run in a lockstep actor.",
+        technique="deterministic simulation: virtual-time loop + simulated batch scheduler with fault scripts (kills, lagging accounting)", ref="8/C28"),
+    "C30": dict(engine="histsim", category="exploration",
+        text="Seeded histories of construct(lazy subset)/run operations over generated workflow definitions and value sets in one process vs the same single operation in a pristine process; oracle: equal graph descriptions and outputs. No fault space: history search over process-global construction caches.",
+        note=HIST_NOTE, technique="deterministic simulation: seeded operation histories vs pristine-process reference", ref="8/C30"),
+    "C35": dict(engine="histsim", category="fault_enumeration",
+        text="For each scenario (fresh, failing, cache hit, rerun, workflow; with/without PROV auditing) every fallible seam call of the job path recorded by a dry run (hooks, messenger sends, mkdir/rmtree/chdir/unlink/lock creation/every write) gets an exception injected, exhaustively; afterwards cwd restored, no info file or job lock left, job record and result loadable with a matching errored flag, task hooks once per execution; plus seeded fault-free histories with counting hooks.",
+        note="One relaxation: the target of the faulted operation itself may be missing. Sequential debug worker; faults are not injected into filelock's own lock removal.",
+        technique="deterministic simulation: exhaustive exception injection at recorded seam calls + seeded histories", ref="8/C35"),
+    "C36": dict(engine="simloop", category="exploration",
+        text="Submissions with AuditFlag.PROV/ALL through the FileMessenger of plain tasks and generated workflows (nested, splits, seeded failing subsets) under the debug worker and the simulated pool; oracle over the recorded message history: one start and one end record per executed job with the same id, ids distinct, errored flags equal those of the stored results.",
+        note=SIMLOOP_NOTE + " ResourceMonitor thread replaced by a deterministic one-sample fake when RESOURCE auditing is on.",
+        technique="deterministic simulation: recorded message history checked against executed jobs under seeded schedules and failures", ref="8/C36"),
+})
+
 NA = {
     "C01": "pure function of (splitter expression, input lists): no schedule, clock, fault or history can change which jobs exist; deciding it is input enumeration against a reference semantics, not simulation",
     "C02": "pure function of (splitter, combiner, lists); same reason as C01",
@@ -104,6 +137,8 @@ def main():
         },
         "engines": [
             {"name": "lockstep", "path": "/verif/simlib/lockstep.py", "serves_properties": [p for p in claimed if CHECKS[p]["engine"].startswith("lockstep")], "kind_free_text": "real forked processes single-stepped by a seeded controller (sys.settrace line points, simulated sleep/clock, chunked writes, SIGKILL crashes)"},
+            {"name": "histsim", "path": "/verif/checks/histcommon.py", "serves_properties": [p for p in claimed if CHECKS[p]["engine"].startswith("histsim")], "kind_free_text": "seeded operation histories through pydra's public API checked against small executable reference models; simulated clock / FS clock / exception seams where the property needs them"},
+            {"name": "cluster", "path": "/verif/simlib/cluster.py", "serves_properties": [p for p in claimed if "cluster" in CHECKS[p]["engine"]], "kind_free_text": "fake SLURM/SGE command-line tools and scheduler behind asyncio.create_subprocess_exec, payloads run in lockstep actors"},
             {"name": "simloop", "path": "/verif/simlib/simloop.py", "serves_properties": [p for p in claimed if CHECKS[p]["engine"].startswith("simloop")], "kind_free_text": "virtual-time asyncio.BaseEventLoop subclass running the real Submitter; ProcessPoolExecutor replaced by a pool of lockstep actors; controller traced at line granularity"},
         ],
         "checks": checks,
